@@ -93,14 +93,14 @@ def rc_segments(row):
     """cut script and recording at the rig's own actions"""
     segs = []
     for tok in row["script"]:
-        if tok in ("open", "drop", "close"):
+        if tok in ("open", "drop", "close", "abort", "sabort"):
             segs.append({"in": tok, "dials": [], "ev": []})
         else:
             segs[-1]["dials"].append(tok)
     cur = -1
     for e in row["events"]:
         k = e["k"]
-        if k in ("in:open", "in:drop", "in:close"):
+        if k in ("in:open", "in:drop", "in:close", "in:abort"):
             cur += 1
             if cur < len(segs):
                 segs[cur]["t0"] = e["t"]
@@ -121,7 +121,7 @@ def rc_term(row):
         if sg["in"] == "end":
             ins = []
         else:
-            ins = [{"open": "IOpen", "drop": "IDrop", "close": "IClose"}[sg["in"]]]
+            ins = [{"open": "IOpen", "drop": "IDrop", "close": "IClose", "abort": "IClose", "sabort": "IClose"}[sg["in"]]]
             ins += ["(IDial %s 0 None)" % gbool(d == "ok") for d in sg["dials"]]
         ev = sg["ev"]
         cnt = lambda k: sum(1 for e in ev if e["k"] == k)
@@ -208,9 +208,10 @@ def reconnect_suite(ctx, vh):
             judged[suspects[k]] = again[k] if (suspects[k] in bo2 | ba2 | bd2) else judged[suspects[k]]
         bad_oracle, bad_agree, bad_deliv = nrep(bad_oracle, bo2), nrep(bad_agree, ba2), nrep(bad_deliv, bd2)
     for r in judged:
-        nd = sum(1 for t in r["script"] if t not in ("open", "drop", "close"))
+        nd = sum(1 for t in r["script"] if t not in ("open", "drop", "close", "abort", "sabort"))
         ctx.count(1, nontrivial_key=("rc", r["limit"], r["norecon"], tuple(r["script"])) if nd >= 2 else None,
-                  dist="reconnect:limit%d:%s" % (r["limit"], "gives-up" if any(e["k"] == "reconnect_failed" for e in r["events"]) else "recovers"))
+                  dist="reconnect:limit%d:%s%s" % (r["limit"], "aborted-cycle+" if any(t in ("abort", "sabort") for t in r["script"]) else "",
+                                                   "gives-up" if any(e["k"] == "reconnect_failed" for e in r["events"]) else "recovers"))
     ctx.sample({"suite": "reconnect/live", "case": {k: judged[len(judged) // 2][k] for k in ("limit", "norecon", "min", "max", "script")},
                 "events": [e["k"] for e in judged[len(judged) // 2]["events"]]})
     ctx.obligation("correspondence:reconnect/live", "correspondence", not bad_agree,
